@@ -456,6 +456,7 @@ def sessionIntercept (w : World) (sraw : Option Sess) (whole : Option Stmt) (cur
     else some ⟨updSess w se.user fun s => { s with rules := s.rules ++ [h] }, .msgs ["srule"] none, [⟨⟨.sessionRule, .srule h⟩, curKg.getD "default"⟩]⟩
   | some se, some ⟨.fact, .fact rel t⟩ =>
     if se.closed then some ⟨w, .err "sessiongone", []⟩
+    else if !hasKg w se.kg then some ⟨w, .err "nokg", []⟩   -- schema check against the session's KG (fb35658): the KG must exist
     else some ⟨updSess w se.user fun s => if s.facts.contains (rel, t) then s else { s with facts := s.facts ++ [(rel, t)] },   -- set per relation (session.rs:187)
                .msgs ["sfact"] none, [⟨⟨.fact, .fact rel t⟩, curKg.getD "default"⟩]⟩
   | some _, some ⟨.fact, .factBad _⟩ => some ⟨w, .err "badterm", []⟩   -- `term_to_value(term)?` (4523) precedes the session access
